@@ -6,6 +6,7 @@ import (
 	"os"
 
 	"verifharness/internal/agwpeh"
+	"verifharness/internal/ardoph"
 	"verifharness/internal/b2f"
 	"verifharness/internal/lzh"
 	"verifharness/internal/mbox"
@@ -19,6 +20,7 @@ import (
 var cmds = map[string]func([]string) int{
 	"mbox":          mbox.Main,
 	"agwpe":         agwpeh.Main,
+	"ardop":         ardoph.Main,
 	"mboxfs-c12":    mboxfs.MainConfine,
 	"mboxfs-c11":    mboxfs.MainCrash,
 	"lzh-run":       lzh.MainRun,
